@@ -363,3 +363,126 @@ Proof.
   exists p, n. split; [assumption|]. split; [assumption|].
   unfold pwalk. rewrite path_walk_spec by (assumption || lia). rewrite He. reflexivity.
 Qed.
+
+(* ---------------------------------------------------------------- C strings *)
+Lemma cstr_facts s :
+  index_of 0%N (s ++ [0%N]) = Some (length (upto 0%N s)) /\
+  firstn (length (upto 0%N s) + 1) (s ++ [0%N]) = upto 0%N s ++ [0%N] /\
+  index_of 0%N (upto 0%N s) = None.
+Proof.
+  induction s as [|b r (IH1 & IH2 & IH3)]; [repeat split|].
+  cbn [app index_of upto]. destruct (beq b 0%N) eqn:E.
+  - apply beq_true in E. subst b. repeat split.
+  - cbn [length Nat.add firstn app index_of]. rewrite IH1, IH2, E, IH3. repeat split.
+Qed.
+
+Lemma index_of_lt c s k : index_of c s = Some k -> k < length s.
+Proof.
+  revert k; induction s as [|b r IH]; intros k H; [discriminate|]. cbn in H.
+  destruct (beq b c); [inversion H; cbn; lia|].
+  destruct (index_of c r) as [j|]; [|discriminate]. inversion H. specialize (IH j eq_refl). cbn. lia.
+Qed.
+
+Lemma index_of_app_some c a b k : index_of c a = Some k -> index_of c (a ++ b) = Some k.
+Proof.
+  revert k; induction a as [|x a IH]; intros k H; [discriminate|]. cbn in *.
+  destruct (beq x c); [assumption|]. destruct (index_of c a) as [j|]; [|discriminate].
+  rewrite (IH j eq_refl). assumption.
+Qed.
+
+(* mpt_path_set(path, str, -1): the elements are the components of the C string
+   up to the assign character; the terminating NUL is the end position *)
+Lemma path_set_str_spec p0 s :
+  exists p n, path_set p0 (Some (s ++ [0%N])) None = Done (p, n) /\
+    pwf p /\ elems p = split (psep p0) (upto (passign p0) (upto 0%N s)) /\
+    psep p = psep p0 /\ passign p = passign p0 /\ poff p = 0 /\ plen p <> 0.
+Proof.
+  destruct (cstr_facts s) as (Hi & Hfn & Hno0).
+  set (cs := upto 0%N s) in *. set (k := length cs) in *.
+  set (sep := psep p0). set (asg := passign p0).
+  unfold path_set. rewrite Hi. cbn [cbind].
+  assert (Hlen : k + 1 <= length (s ++ [0%N])).
+  { apply index_of_lt in Hi. lia. }
+  destruct (pscan_spec sep asg (k + 1) (s ++ [0%N]) 0 0 0 Hlen) as (el & fi & Hp & _ & H2).
+  fold sep asg. rewrite Hp. cbn [cbind]. rewrite Hfn in *. specialize (H2 eq_refl).
+  set (T := upto asg cs).
+  (* the position the scan stops at *)
+  assert (Hcase : (exists j, index_of asg (cs ++ [0%N]) = Some j /\ j = length T /\
+                             upto asg (cs ++ [0%N]) = T) \/
+                  (index_of asg (cs ++ [0%N]) = None /\ T = cs /\ upto asg (cs ++ [0%N]) = cs ++ [0%N])).
+  { unfold T. rewrite !upto_index. destruct (index_of asg cs) as [j|] eqn:Ea.
+    - left. exists j. pose proof (index_of_lt _ _ _ Ea).
+      rewrite (index_of_app_some _ _ _ _ Ea). repeat split.
+      + rewrite firstn_length. lia.
+      + rewrite firstn_app. replace (j - length cs) with 0 by lia. rewrite firstn_O, app_nil_r. reflexivity.
+    - rewrite (index_of_app_none _ _ _ Ea). cbn [index_of]. destruct (beq 0%N asg) eqn:E0.
+      + left. exists (length cs + 0). cbn [option_map]. repeat split; [lia|].
+        rewrite firstn_app, Nat.add_0_r, Nat.sub_diag, firstn_all, firstn_O, app_nil_r. reflexivity.
+      + right. cbn [option_map]. repeat split. }
+  eexists _, el. split; [reflexivity|].
+  assert (Hbody : forall L F, L = length T + 1 ->
+            body (mkpath (s ++ [0%N]) 0 L F false false false sep asg) = T).
+  { intros L F HL. unfold body. cbn [poff plen pbase]. subst L.
+    replace (length T + 1 - 1) with (length T) by lia. unfold slice. cbn [skipn].
+    assert (HT : length T <= k).
+    { unfold T. rewrite upto_index. destruct (index_of asg cs); [rewrite firstn_length|]; lia. }
+    replace (firstn (length T) (s ++ [0%N])) with (firstn (length T) (firstn (k + 1) (s ++ [0%N])))
+      by (rewrite firstn_firstn; f_equal; lia).
+    rewrite Hfn, firstn_app. replace (length T - length cs) with 0 by lia.
+    rewrite firstn_O, app_nil_r. unfold T. rewrite upto_index.
+    destruct (index_of asg cs) as [j|] eqn:Ea; [apply firstn_len_firstn|apply firstn_all]. }
+  assert (HL : (match index_of asg (cs ++ [0%N]) with Some j => 0 + j + 1 | None => 0 + (k + 1) end) +
+               (if match index_of asg (cs ++ [0%N]) with Some _ => true | None => false end then 0 else 0)
+               = length T + 1).
+  { destruct Hcase as [(j & Hj & HjT & _)|(Hn & HT & _)].
+    - rewrite Hj. lia.
+    - rewrite Hn, HT. fold k. lia. }
+  rewrite HL.
+  assert (HTk : length T <= k).
+  { unfold T. rewrite upto_index. destruct (index_of asg cs); [rewrite firstn_length|]; lia. }
+  split.
+  { split; [reflexivity|]. intros _. cbn [poff plen pbase]. split; [lia|].
+    unfold first_ok. cbn [pfirst psep]. rewrite (Hbody _ _ eq_refl), hd_split_length, H2.
+    destruct Hcase as [(j & _ & _ & HU)|(_ & HT & HU)]; rewrite HU.
+    - destruct (index_of sep T) as [i|]; [|left; reflexivity].
+      destruct (Nat.ltb_spec 255 (0 + i)); [left; reflexivity|right; lia].
+    - rewrite HT. destruct (index_of sep cs) as [i|] eqn:Es.
+      + rewrite (index_of_app_some _ _ _ _ Es).
+        destruct (Nat.ltb_spec 255 (0 + i)); [left; reflexivity|right; lia].
+      + rewrite (index_of_app_none _ _ _ Es). cbn [index_of]. destruct (beq 0%N sep); cbn [option_map].
+        * destruct (Nat.ltb_spec 255 (0 + (length cs + 0))); [left; reflexivity|right; lia].
+        * left. reflexivity. }
+  split.
+  { unfold elems. cbn [plen psep]. destruct (Nat.eqb_spec (length T + 1) 0); [lia|].
+    rewrite (Hbody _ _ eq_refl). reflexivity. }
+  cbn. repeat split; lia.
+Qed.
+
+Lemma str_path_spec s sep en :
+  exists p, str_path (Some s) sep en = Done p /\ pwf p /\
+    elems p = split sep (upto en (upto 0%N s)) /\ psep p = sep /\ passign p = en /\ plen p <> 0.
+Proof.
+  unfold str_path.
+  destruct (path_set_str_spec (path_init sep en) s) as (p & n & Hs & Hw & He & H1 & H2 & _ & Hn).
+  rewrite Hs. cbn [cbind]. exists p. repeat split; assumption.
+Qed.
+
+Lemma str_path_null sep en :
+  exists p, str_path None sep en = Done p /\ pwf p /\ plen p = 0 /\ elems p = [].
+Proof.
+  unfold str_path, path_set. cbn. eexists. split; [reflexivity|]. split.
+  - split; [reflexivity|]. cbn. congruence.
+  - split; reflexivity.
+Qed.
+
+(* the key named by a C string (ConfigSpec.str_key) is what the path made from it denotes *)
+Lemma str_path_key s sep :
+  exists p, str_path s sep 0%N = Done p /\ pwf p /\ elems p = str_key s sep.
+Proof.
+  destruct s as [s|].
+  - destruct (str_path_spec s sep 0%N) as (p & Hp & Hw & He & _). exists p. split; [assumption|].
+    split; [assumption|]. rewrite He. cbn [str_key]. f_equal.
+    (* cutting an already NUL-free string at NUL changes nothing *)
+    destruct (cstr_facts s) as (_ & _ & Hn). rewrite upto_index, Hn. reflexivity.
+  - destruct (str_path_null sep 0%N) as (p & Hp & Hw & _ & He). exists p. repeat split; assumption.
+Qed.
